@@ -662,7 +662,11 @@ JANET_CORE_FN(cfun_buffer_format,
     janet_arity(argc, 2, -1);
     JanetBuffer *buffer = janet_getbuffer(argv, 0);
     const char *strfrmt = (const char *) janet_getstring(argv, 1);
-    janet_buffer_format(buffer, strfrmt, 1, argc, argv);
+    /* Format into a scratch buffer first: the destination may be one of the
+     * values being formatted. */
+    JanetBuffer *scratch = janet_buffer(0);
+    janet_buffer_format(scratch, strfrmt, 1, argc, argv);
+    janet_buffer_push_bytes(buffer, scratch->data, scratch->count);
     return argv[0];
 }
 
@@ -677,10 +681,14 @@ JANET_CORE_FN(cfun_buffer_format_at,
         at += buffer->count + 1;
     }
     if (at > buffer->count || at < 0) janet_panicf("expected index at to be in range [0, %d), got %d", buffer->count, at);
+    const char *strfrmt = (const char *) janet_getstring(argv, 2);
+    /* Format into a scratch buffer first: the destination may be one of the
+     * values being formatted, and a formatting error must not cut off its tail. */
+    JanetBuffer *scratch = janet_buffer(0);
+    janet_buffer_format(scratch, strfrmt, 2, argc, argv);
     int32_t oldcount = buffer->count;
     buffer->count = at;
-    const char *strfrmt = (const char *) janet_getstring(argv, 2);
-    janet_buffer_format(buffer, strfrmt, 2, argc, argv);
+    janet_buffer_push_bytes(buffer, scratch->data, scratch->count);
     if (buffer->count < oldcount) {
         buffer->count = oldcount;
     }
